@@ -77,10 +77,10 @@ func (Engine) Describe() simcore.Description {
 }
 
 var txKinds = []string{"send", "gamm-create", "gamm-join", "gamm-exit", "gamm-swap", "pm-swap", "pm-split", "cl-create-pool", "cl-create-pos", "cl-withdraw", "cl-collect",
-	"lock", "unlock", "gauge-create", "gauge-add", "tf-create", "tf-mint", "tf-burn", "tf-admin", "stake-delegate", "stake-undelegate", "stake-withdraw", "sf-delegate", "sf-undelegate", "gamm-ghost-swap", "pm-ghost-swap"}
+	"lock", "unlock", "gauge-create", "gauge-add", "tf-create", "tf-mint", "tf-burn", "tf-admin", "stake-delegate", "stake-undelegate", "stake-withdraw", "sf-delegate", "sf-undelegate", "gamm-ghost-swap", "pm-ghost-swap", "tf-force", "tf-meta"}
 
-var earlyWeights = []int{4, 14, 4, 1, 4, 3, 1, 10, 12, 1, 1, 8, 1, 5, 1, 8, 4, 1, 1, 4, 1, 1, 3, 0, 1, 1}
-var lateWeights = []int{6, 4, 5, 4, 10, 10, 5, 3, 8, 5, 6, 7, 5, 5, 4, 3, 5, 3, 2, 4, 3, 3, 3, 2, 1, 1}
+var earlyWeights = []int{4, 14, 4, 1, 4, 3, 1, 10, 12, 1, 1, 8, 1, 5, 1, 8, 4, 1, 1, 4, 1, 1, 3, 0, 1, 1, 3, 1}
+var lateWeights = []int{6, 4, 5, 4, 10, 10, 5, 3, 8, 5, 6, 7, 5, 5, 4, 3, 5, 3, 2, 4, 3, 3, 3, 2, 1, 1, 4, 2}
 
 func isTx(op string) bool {
 	for _, k := range txKinds {
